@@ -1,5 +1,6 @@
 import Bermuda.Model.Json
 import Bermuda.Model.Resample
+import Bermuda.Model.ResampleExt
 import Bermuda.Spec.C17
 open Lean Bermuda Bermuda.Resample
 
@@ -50,6 +51,11 @@ def handle (j : Json) : Except String Json := do
                          ("perm", Spec.C17.sameMultiset qs r)]
       | .error _ => pure Json.null
     return Json.mkObj [("model", ratsToJson model), ("spec", spec)]
+  | "meRaw" =>
+    -- {"op":"meRaw","xs":[val..],"qs":["n/d"..]} -> {"model": {"ok":[val..]} | {"err": class}}
+    let xs ← (← (← j.getObjVal? "xs").getArr?).toList.mapM Val.fromJson
+    let qs ← ratsFromJson (← j.getObjVal? "qs")
+    return Json.mkObj [("model", exceptToJson (fun l => Json.arr (l.map Val.toJson).toArray) (meEnsembleRaw xs qs))]
   | "bootstrap" =>
     let t ← cellsFromJson (← j.getObjVal? "t")
     let n ← jInt? (← j.getObjVal? "n")
